@@ -29,7 +29,7 @@ def transcript(binp, cases_path, out_path, env, tier, start=0):
         if last is None:
             return crashes, "crash before any case (rc %s): %s" % (r.returncode, r.stderr[-300:])
         with open(out_path, "a") as f:
-            f.write("CRASH rc=%s\nEND %d nt=1\n" % (r.returncode, last))
+            f.write("%s rc=%s\nEND %d nt=1\n" % ("HANG" if r.returncode == 3 else "CRASH", r.returncode, last))
         crashes.append(last)
         frm = last + 1
     return crashes, None
@@ -145,6 +145,9 @@ def run(d, tier, seed, replay, t0):
                 nontrivial.add(hashlib.sha256(line.encode()).hexdigest()[:16])
             if len(samples) < 3 and a[idx]:
                 samples.append({"case": line[:600], "transcript_head": a[idx][:3], "transcript_lines": len(a[idx])})
+            if any(l.startswith("HANG") for l in a[idx] + b[idx]):
+                inconclusive.append("case %d of chunk %d exceeded the per-case time limit in one build (possible hang)" % (idx, i))
+                continue
             if a[idx] != b[idx]:
                 if len(violations) >= 3:
                     continue
@@ -185,7 +188,7 @@ def run(d, tier, seed, replay, t0):
     if uniq:
         return 1
     if inconclusive:
-        for m in inconclusive:
+        for m in inconclusive[:10]:
             d.log("INCONCLUSIVE:", m)
         return 2
     print("C17 %s: %d cases gave identical transcripts in both builds (%d distinct non-trivial), %.1fs" % (tier, evaluations, len(nontrivial), time.time() - t0))
